@@ -19,13 +19,14 @@ structure Frame (s s' : St α) : Prop where
   srcOpen : s'.srcOpen = s.srcOpen
   dirOpen : s'.dirOpen = s.dirOpen
   exitMono : s.exitSt ≠ 0 → s'.exitSt ≠ 0
+  mainMono : s'.main = false → s.main = false
 
-theorem Frame.refl (s : St α) : Frame s s := ⟨rfl, rfl, rfl, rfl, rfl, rfl, rfl, rfl, rfl, id⟩
+theorem Frame.refl (s : St α) : Frame s s := ⟨rfl, rfl, rfl, rfl, rfl, rfl, rfl, rfl, rfl, id, id⟩
 
 theorem Frame.trans {a b c : St α} (h1 : Frame a b) (h2 : Frame b c) : Frame a c :=
   ⟨h2.trace.trans h1.trace, h2.fs.trans h1.fs, h2.k.trans h1.k, h2.destStIno.trans h1.destStIno,
    h2.srcStIno.trans h1.srcStIno, h2.userAbort.trans h1.userAbort, h2.destOpen.trans h1.destOpen,
-   h2.srcOpen.trans h1.srcOpen, h2.dirOpen.trans h1.dirOpen, fun h => h2.exitMono (h1.exitMono h)⟩
+   h2.srcOpen.trans h1.srcOpen, h2.dirOpen.trans h1.dirOpen, fun h => h2.exitMono (h1.exitMono h), fun h => h1.mainMono (h2.mainMono h)⟩
 
 /-- program counters at which io_close's dispatchers can stop -/
 def Pc.closing : Pc → Bool
@@ -45,34 +46,34 @@ variable (c : Cfg α)
 
 theorem frame_closeSrcPhase (s : St α) : Frame s (closeSrcPhase c s) ∧ (closeSrcPhase c s).pc.closing = true ∧
     (closeSrcPhase c s).success = s.success := by
-  unfold closeSrcPhase; split <;> exact ⟨⟨rfl, rfl, rfl, rfl, rfl, rfl, rfl, rfl, rfl, id⟩, rfl, rfl⟩
+  unfold closeSrcPhase; split <;> exact ⟨⟨rfl, rfl, rfl, rfl, rfl, rfl, rfl, rfl, rfl, id, id⟩, rfl, rfl⟩
 
 theorem frame_closeDestPhase (s : St α) : Frame s (closeDestPhase c s) ∧ (closeDestPhase c s).pc.closing = true ∧
     (closeDestPhase c s).success = s.success := by
   unfold closeDestPhase
   split
   · exact frame_closeSrcPhase c s
-  · split <;> exact ⟨⟨rfl, rfl, rfl, rfl, rfl, rfl, rfl, rfl, rfl, id⟩, rfl, rfl⟩
+  · split <;> exact ⟨⟨rfl, rfl, rfl, rfl, rfl, rfl, rfl, rfl, rfl, id, id⟩, rfl, rfl⟩
 
 theorem frame_afterAttrs (s : St α) : Frame s (afterAttrs c s) ∧ (afterAttrs c s).pc.closing = true ∧
     (afterAttrs c s).success = s.success := by
   unfold afterAttrs
   split
-  · exact ⟨⟨rfl, rfl, rfl, rfl, rfl, rfl, rfl, rfl, rfl, id⟩, rfl, rfl⟩
+  · exact ⟨⟨rfl, rfl, rfl, rfl, rfl, rfl, rfl, rfl, rfl, id, id⟩, rfl, rfl⟩
   · exact frame_closeDestPhase c s
 
 theorem frame_closeBlock (s : St α) : Frame s (closeBlock c s) ∧ (closeBlock c s).pc.closing = true ∧
     (closeBlock c s).success = s.success := by
   unfold closeBlock
   split
-  · exact ⟨⟨rfl, rfl, rfl, rfl, rfl, rfl, rfl, rfl, rfl, id⟩, rfl, rfl⟩
+  · exact ⟨⟨rfl, rfl, rfl, rfl, rfl, rfl, rfl, rfl, rfl, id, id⟩, rfl, rfl⟩
   · exact frame_closeDestPhase c s
 
 theorem frame_ioClose (s : St α) : Frame s (ioClose c s) ∧ (ioClose c s).pc.closing = true ∧
     (ioClose c s).success = s.success := by
   unfold ioClose
   split
-  · exact ⟨⟨rfl, rfl, rfl, rfl, rfl, rfl, rfl, rfl, rfl, id⟩, rfl, rfl⟩
+  · exact ⟨⟨rfl, rfl, rfl, rfl, rfl, rfl, rfl, rfl, rfl, id, id⟩, rfl, rfl⟩
   · exact frame_closeBlock c s
 
 theorem frame_ioFail (s : St α) : Frame s (ioFail c s) ∧ (ioFail c s).pc.closing = true ∧
@@ -80,12 +81,12 @@ theorem frame_ioFail (s : St α) : Frame s (ioFail c s) ∧ (ioFail c s).pc.clos
   unfold ioFail
   have := frame_closeBlock c { s with success := false, ops := [] }
   exact ⟨⟨this.1.trace, this.1.fs, this.1.k, this.1.destStIno, this.1.srcStIno, this.1.userAbort, this.1.destOpen,
-    this.1.srcOpen, this.1.dirOpen, this.1.exitMono⟩, this.2.1, this.2.2⟩
+    this.1.srcOpen, this.1.dirOpen, this.1.exitMono, this.1.mainMono⟩, this.2.1, this.2.2⟩
 
 theorem frame_openDestErr (s : St α) : Frame s (openDestErr c s) ∧ (openDestErr c s).pc.landing = true := by
   unfold openDestErr
   split
-  · exact ⟨⟨rfl, rfl, rfl, rfl, rfl, rfl, rfl, rfl, rfl, id⟩, rfl⟩
+  · exact ⟨⟨rfl, rfl, rfl, rfl, rfl, rfl, rfl, rfl, rfl, id, id⟩, rfl⟩
   · have := frame_ioFail c s; exact ⟨this.1, closing_landing this.2.1⟩
 
 theorem frame_finish (s : St α) : Frame s (finish c s) ∧ (finish c s).pc.landing = true := by
@@ -93,10 +94,10 @@ theorem frame_finish (s : St α) : Frame s (finish c s) ∧ (finish c s).pc.land
   split
   · have := frame_ioClose c { s with success := true }
     exact ⟨⟨this.1.trace, this.1.fs, this.1.k, this.1.destStIno, this.1.srcStIno, this.1.userAbort, this.1.destOpen,
-      this.1.srcOpen, this.1.dirOpen, this.1.exitMono⟩, closing_landing this.2.1⟩
+      this.1.srcOpen, this.1.dirOpen, this.1.exitMono, this.1.mainMono⟩, closing_landing this.2.1⟩
   · have := frame_ioFail c (msgError s)
     exact ⟨⟨this.1.trace, this.1.fs, this.1.k, this.1.destStIno, this.1.srcStIno, this.1.userAbort, this.1.destOpen,
-      this.1.srcOpen, this.1.dirOpen, fun _ => this.1.exitMono (by simp [msgError])⟩, closing_landing this.2.1⟩
+      this.1.srcOpen, this.1.dirOpen, fun _ => this.1.exitMono (by simp [msgError]), this.1.mainMono⟩, closing_landing this.2.1⟩
 
 theorem frame_nextMain (ops : List (Op α)) (s : St α) : Frame s (nextMain c ops s) ∧ (nextMain c ops s).pc.landing = true := by
   induction ops generalizing s with
@@ -104,7 +105,7 @@ theorem frame_nextMain (ops : List (Op α)) (s : St α) : Frame s (nextMain c op
     unfold nextMain
     have := frame_finish c { s with ops := [] }
     exact ⟨⟨this.1.trace, this.1.fs, this.1.k, this.1.destStIno, this.1.srcStIno, this.1.userAbort, this.1.destOpen,
-      this.1.srcOpen, this.1.dirOpen, this.1.exitMono⟩, this.2⟩
+      this.1.srcOpen, this.1.dirOpen, this.1.exitMono, this.1.mainMono⟩, this.2⟩
   | cons op r ih =>
     cases op with
     | tick =>
@@ -116,12 +117,12 @@ theorem frame_nextMain (ops : List (Op α)) (s : St α) : Frame s (nextMain c op
       unfold nextMain
       split
       · exact ih s
-      · exact ⟨⟨rfl, rfl, rfl, rfl, rfl, rfl, rfl, rfl, rfl, id⟩, rfl⟩
+      · exact ⟨⟨rfl, rfl, rfl, rfl, rfl, rfl, rfl, rfl, rfl, id, id⟩, rfl⟩
     | fixPos n =>
       unfold nextMain
       split
       · exact ih s
-      · exact ⟨⟨rfl, rfl, rfl, rfl, rfl, rfl, rfl, rfl, rfl, id⟩, rfl⟩
+      · exact ⟨⟨rfl, rfl, rfl, rfl, rfl, rfl, rfl, rfl, rfl, id, id⟩, rfl⟩
     | write d sp =>
       unfold nextMain
       split
@@ -129,20 +130,22 @@ theorem frame_nextMain (ops : List (Op α)) (s : St α) : Frame s (nextMain c op
       · split
         · have := ih { s with pending := s.pending + d.length }
           exact ⟨⟨this.1.trace, this.1.fs, this.1.k, this.1.destStIno, this.1.srcStIno, this.1.userAbort,
-            this.1.destOpen, this.1.srcOpen, this.1.dirOpen, this.1.exitMono⟩, this.2⟩
+            this.1.destOpen, this.1.srcOpen, this.1.dirOpen, this.1.exitMono, this.1.mainMono⟩, this.2⟩
         · split
           · exact ih s
-          · split <;> exact ⟨⟨rfl, rfl, rfl, rfl, rfl, rfl, rfl, rfl, rfl, id⟩, rfl⟩
+          · split <;> exact ⟨⟨rfl, rfl, rfl, rfl, rfl, rfl, rfl, rfl, rfl, id, id⟩, rfl⟩
 
 theorem frame_doInit (s : St α) : Frame s (doInit c s) ∧ (doInit c s).pc.landing = true := by
   have lift : ∀ s' : St α, Frame { s with main := true, ops := c.ops } s' → Frame s s' := fun s' f =>
-    ⟨f.trace, f.fs, f.k, f.destStIno, f.srcStIno, f.userAbort, f.destOpen, f.srcOpen, f.dirOpen, f.exitMono⟩
+    ⟨f.trace, f.fs, f.k, f.destStIno, f.srcStIno, f.userAbort, f.destOpen, f.srcOpen, f.dirOpen, f.exitMono,
+      fun h => by have := f.mainMono h; simp at this⟩
   unfold doInit
   simp only
   split
   · have := frame_ioFail c (msgError { s with main := true, ops := c.ops })
     exact ⟨⟨this.1.trace, this.1.fs, this.1.k, this.1.destStIno, this.1.srcStIno, this.1.userAbort, this.1.destOpen,
-      this.1.srcOpen, this.1.dirOpen, fun _ => this.1.exitMono (by simp [msgError])⟩, closing_landing this.2.1⟩
+      this.1.srcOpen, this.1.dirOpen, fun _ => this.1.exitMono (by simp [msgError]),
+      fun h => by have := this.1.mainMono h; simp [msgError] at this⟩, closing_landing this.2.1⟩
   · split
     · have := frame_ioFail c { s with main := true, ops := c.ops }
       exact ⟨lift _ this.1, closing_landing this.2.1⟩
@@ -150,10 +153,10 @@ theorem frame_doInit (s : St α) : Frame s (doInit c s) ∧ (doInit c s).pc.land
       · have := frame_nextMain c c.ops { s with main := true, ops := c.ops }
         exact ⟨lift _ this.1, this.2⟩
       · split
-        · exact ⟨⟨rfl, rfl, rfl, rfl, rfl, rfl, rfl, rfl, rfl, id⟩, rfl⟩
+        · exact ⟨⟨rfl, rfl, rfl, rfl, rfl, rfl, rfl, rfl, rfl, id, fun h => by simp at h⟩, rfl⟩
         · split
-          · exact ⟨⟨rfl, rfl, rfl, rfl, rfl, rfl, rfl, rfl, rfl, id⟩, rfl⟩
-          · split <;> exact ⟨⟨rfl, rfl, rfl, rfl, rfl, rfl, rfl, rfl, rfl, id⟩, rfl⟩
+          · exact ⟨⟨rfl, rfl, rfl, rfl, rfl, rfl, rfl, rfl, rfl, id, fun h => by simp at h⟩, rfl⟩
+          · split <;> exact ⟨⟨rfl, rfl, rfl, rfl, rfl, rfl, rfl, rfl, rfl, id, fun h => by simp at h⟩, rfl⟩
 
 theorem frame_nextPre (ops : List (Op α)) (s : St α) : Frame s (nextPre c ops s) ∧ (nextPre c ops s).pc.landing = true := by
   induction ops generalizing s with
@@ -164,7 +167,7 @@ theorem frame_nextPre (ops : List (Op α)) (s : St α) : Frame s (nextPre c ops 
       unfold nextPre
       split
       · exact ih s
-      · exact ⟨⟨rfl, rfl, rfl, rfl, rfl, rfl, rfl, rfl, rfl, id⟩, rfl⟩
+      · exact ⟨⟨rfl, rfl, rfl, rfl, rfl, rfl, rfl, rfl, rfl, id, id⟩, rfl⟩
     | tick => unfold nextPre; exact ih s
     | write d sp => unfold nextPre; exact ih s
     | fixPos n => unfold nextPre; exact ih s
